@@ -4,7 +4,9 @@
         MatchesForMutagen, the scanned snapshot, or ReifyPhantomDirectories);
      2  the reified snapshot of the implementation departs from Docker's
         build-context semantics ([check_C15]);
-     4  (only with 2) every departure lies in the class [known_C15];
+     4  (only with 2, never with 1) every departure lies in the class
+        [known_C15] AND the implementation's outputs are exactly what the model
+        predicts - so the departure is the known one and nothing else;
      8  the harness fed an ill-formed input. *)
 From Coq Require Import List Bool Arith String Ascii.
 Import ListNotations.
@@ -48,10 +50,11 @@ Definition dverdict (c : dcase) : nat :=
       let s' := snapshot (dock_ignorer dexcl dtext dmatch pats) tree in
       let r := reify anc (Some s') (if beta_same then Some s' else None) in
       let bad := negb (check_C15 pats tree anc rs) in
-      bit (negb (entry_eqb s' s && oentry_eqb (r_a r) (Some rs)
-                 && Nat.eqb (r_ca r) ca && Nat.eqb (r_cb r) cb && negb (r_oof r))) 1
+      let agrees := entry_eqb s' s && oentry_eqb (r_a r) (Some rs)
+                    && Nat.eqb (r_ca r) ca && Nat.eqb (r_cb r) cb && negb (r_oof r) in
+      bit (negb agrees) 1
       + bit bad 2
-      + bit (bad && c15_all_known pats tree anc rs) 4
+      + bit (bad && agrees && c15_all_known pats tree anc rs) 4
     | _, _ => 1
     end
   end.
